@@ -72,8 +72,8 @@ def work(v):
     res = []
     for p in sorted(PROPS):
         rr = report.run_property(r2, p, "quick")
-        new = sorted({f"{f.rule}" for f in rr.violations})
-        errs = sorted({e.split(":")[0] for e in rr.errors})
+        new = sorted({f"{f.rule}|{f.key.split('::')[-1][:60]}|{f.msg[:160]}" for f in rr.violations})
+        errs = sorted({e[:200] for e in rr.errors})
         if new or errs:
             res.append((p, new, errs))
     return (rel, fname, lineno, res)
@@ -90,7 +90,9 @@ if __name__ == "__main__":
     for rel, fname, lineno, res in bad:
         for p, new, errs in res:
             for x in new + errs:
-                rules.setdefault(x, set()).add(f"{rel.split('/')[-1]}:{fname}")
+                rules.setdefault(x.split("|")[0].split(":")[0], []).append(f"{rel.split('/')[-1]}:{fname} :: {x}")
     for k in sorted(rules):
-        print(k, sorted(rules[k]))
+        print(k)
+        for x in sorted(set(rules[k])):
+            print("    ", x)
     print(len(bad), "of", len(results), "variants trip a rule;", len(rules), "rules affected")
